@@ -248,9 +248,16 @@ func runC09Cuts(run *Run, seed int64, cfg c09Cfg, rng *rand.Rand, full bool) (ou
 		if dir == "H->J" {
 			total = lenHJ
 		}
+		// structural boundaries are always cut, whatever the sampling: where the trailing user state
+		// begins (the node list is complete there), one byte either side, and one byte of it left
+		usLen := int64(len("user-state-of-J-abcdefghij"))
+		boundary := map[int64]bool{total - usLen: true, total - usLen - 1: true, total - usLen + 1: true, total - 1: true}
 		for k := int64(0); k < total; k++ {
-			if !full && k > 16 && k < total-16 && k%7 != 0 {
+			if !full && k > 16 && k < total-16 && k%7 != 0 && !boundary[k] {
 				continue
+			}
+			if boundary[k] {
+				run.Cell("cut-boundary", dir, fmt.Sprintf("end-%d", total-k))
 			}
 			for _, hard := range []bool{true, false} {
 				cases = append(cases, cutCase{dir, k, hard})
@@ -500,15 +507,29 @@ func runC09Reject(run *Run, seed int64, cfg c09Cfg, rng *rand.Rand, cases int) (
 	R.MergeVeto = nil
 	R.mu.Unlock()
 	F.OnStream = nil
-	// (b) version matrices
-	localVsn := [][]uint8{DefaultVsn()} // R itself (pver may be 1 for v0): read from the dump
-	for i, r := range R.ML().VerifDump().Records {
-		if r.State == memberlist.StateAlive {
-			v := append([]uint8(nil), r.Vsn[:]...)
-			if i == 0 {
-				localVsn = [][]uint8{v}
-			} else {
-				localVsn = append(localVsn, v)
+	// (b) version matrices. Member T is first upgraded in place: a newer alive announces a narrower
+	// protocol range (an alive -> alive update); the compatibility check must use that vector. The
+	// oracle's idea of the local vectors comes from the claims delivered, not from the node's table
+	// (only R's own vector is read from its record).
+	// (the new range keeps R, F and T mutually compatible, so that later exchanges can still succeed,
+	// but shuts out current versions 1 resp. 5 that the old range admitted)
+	upgraded := []uint8{2, 5, 2, 0, 0, 0}
+	if pver == 1 {
+		// R speaks 1 and F 5: the range cannot shrink; T only changes its current version
+		upgraded = []uint8{1, 5, 3, 0, 0, 0}
+	}
+	T.Send(Enc(TAlive, &WAlive{Incarnation: 6, Node: "T", Addr: []byte(T.EP.IP), Port: 7946, Vsn: upgraded}))
+	Settle(time.Millisecond)
+	run.Cell("accept", "in-place-upgrade", fmt.Sprintf("range=%d-%d", upgraded[0], upgraded[1]))
+	localVsn := [][]uint8{DefaultVsn(), DefaultVsn(), upgraded} // R (replaced below), F, T
+	for _, r := range R.ML().VerifDump().Records {
+		switch r.Name {
+		case "R":
+			localVsn[0] = append([]uint8(nil), r.Vsn[:]...)
+		case "T":
+			if r.Incarnation != 6 || !bytes.Equal(r.Vsn[:], upgraded) {
+				fail("version-vector-not-updated", "a newer alive about T announcing versions %v was accepted as %s", upgraded, recString(&r))
+				return
 			}
 		}
 	}
@@ -634,7 +655,7 @@ func runC09Reject(run *Run, seed int64, cfg c09Cfg, rng *rand.Rand, cases int) (
 		// it may only go by the receiver's own timer: not before the minimum suspicion timeout
 		si, ok := R.ML().VerifSuspicionOf("T")
 		if !ok {
-			fail("hearsay-no-suspicion", "the report did not even start a suspicion (record %s)", recString(r2))
+			fail("hearsay-no-suspicion", "the report did not even start a suspicion (record %s); log tail: %v", recString(r2), R.Log.Tail(4))
 			return
 		}
 		// a second and third report while the suspicion is pending (same incarnation as the suspect record):
